@@ -44,7 +44,6 @@ type Reporter struct {
 	exhaustive  bool
 	nviol       int
 	firstState  string
-	progress    atomic.Int64
 	finished    atomic.Bool
 	curCase     int
 	curSig      string
@@ -103,14 +102,14 @@ func NewReporter(t *testing.T) *Reporter {
 func (r *Reporter) watchdog() {
 	// progress is a counter, not a timestamp: Tick may be called inside a synctest bubble whose clock is fake
 	limit := 90 * time.Second
-	last := r.progress.Load()
+	last := globalProgress.Load()
 	lastChange := time.Now()
 	for {
 		time.Sleep(2 * time.Second)
 		if r.finished.Load() {
 			return
 		}
-		if cur := r.progress.Load(); cur != last {
+		if cur := globalProgress.Load(); cur != last {
 			last, lastChange = cur, time.Now()
 			continue
 		}
@@ -124,7 +123,12 @@ func (r *Reporter) watchdog() {
 	}
 }
 
-func (r *Reporter) Tick() { r.progress.Add(1) }
+// globalProgress is bumped by every completed protocol step (runSession, binary replay) and by the reporter's
+// counters, so one long case (4096-entry directory enumerated entry by entry) is not mistaken for a hang.
+var globalProgress atomic.Int64
+
+func tick()               { globalProgress.Add(1) }
+func (r *Reporter) Tick() { tick() }
 
 func (r *Reporter) Thorough() bool { return r.Tier == "thorough" }
 
